@@ -124,6 +124,17 @@ def per_start(item):
             'sample': {'start_date': str(d0), 'schedules': n}}
 
 
+def per_long_start(item):
+    d0 = datetime.date.fromordinal(item[0])
+    viols, n = [], 0
+    for k in item[1]:
+        f, c = check_range(ts(d0, (0, 0)), ts(d0 + datetime.timedelta(days=k), (23, 59)))
+        n += c
+        viols += f
+    return {'viols': viols[:6], 'execs': n, 'evals': n, 'nontrivial': True, 'outcome': None,
+            'counters': {'schedules_built': n, 'long_schedules': n}}
+
+
 def items(tier):
     its = [it + (tier,) for it in calendar_items(tier)]
     if tier == 'thorough':
@@ -146,6 +157,10 @@ def run(tier, res, is_known):
     res.assumptions += ["'inside the range' is read at date granularity; start times of day <= 14:30, end time of day "
                         "not before the start's"]
     product(per_start, its, res, is_known, label='schedules', sample_every=97, chunk=4)
+    if any(not is_known(v) for v in res.violations):
+        return
+    from .c12 import long_items
+    product(per_long_start, long_items(tier), res, is_known, label='ranges of 1-3 years', chunk=1)
     res.states = res.extra.get('schedules_built', 0)
     res.transitions = res.states
     shapes = res.extra.pop('shapes', set())
